@@ -621,7 +621,11 @@ fn is_changed_after_unmarking_chemistry(mathml: Element) -> bool {
                         mathml.remove_attribute(CHANGED_ATTR);  // if just one child, the attrs are pushed onto the child
                         // debug!("mrow attrs: {}", crate::pretty_print::format_attrs(&mathml.attributes()));
                         // debug!("is_changed_after_unmarking: before replace - parent\n{}", mml_to_string(&parent));
-                        replace_children(mathml, children);
+                        if children.is_empty() {
+                            mathml.remove_from_parent();     // all the children were added ones and were removed above
+                        } else {
+                            replace_children(mathml, children);
+                        }
                         // debug!("is_changed_after_unmarking: parent\n{}", mml_to_string(&parent));
 
                     }
